@@ -618,7 +618,8 @@ const (
 func selfCPU() time.Duration {
 	var ru syscall.Rusage
 	syscall.Getrusage(syscall.RUSAGE_SELF, &ru)
-	return time.Duration(ru.Utime.Nano() + ru.Stime.Nano())
+	// user time only: kernel work done on the process's behalf (page reclaim under memory pressure) is not the case's
+	return time.Duration(ru.Utime.Nano())
 }
 
 var heapSample = []metrics.Sample{{Name: "/memory/classes/heap/objects:bytes"}}
@@ -852,6 +853,22 @@ func runL1(c *driver.Ctx, first, n int64) {
 			}
 		}
 		rec, guard, died, inconcl := sc.run(cs)
+		if guard != "" {
+			// MergeSplit is deterministic: a genuine non-termination trips the guard again in a fresh sub-child. A guard
+			// that does not fire twice was the machine (seen once: 4 s of *system* time charged to a 5 ms case while another
+			// process was exhausting memory), not the code: no verdict from it.
+			sc.kill()
+			var err error
+			if sc, err = startSubchild(); err != nil {
+				panic("cannot start sub-child: " + err.Error())
+			}
+			rec2, guard2, died2, inconcl2 := sc.run(cs)
+			if guard2 == "" {
+				c.Inconclusive("l1-subchild-guard-not-reproduced")
+				c.Observe("l1_subchild_guard_not_reproduced", 1)
+				rec, guard, died, inconcl = rec2, "", died2, inconcl2
+			}
+		}
 		var witness any
 		if rec == nil || rec.hasViolation() {
 			witness = witnessOf(cs)
